@@ -362,6 +362,13 @@ func (engine) Run(ci any) lib.Result {
 			}
 			res.Tags = append(res.Tags, "abort-kind:"+abortKind(out.msg))
 		}
+		if out.class == "run_err" && abortKind(out.msg) == "other" {
+			// every abort exit the generator plans (a failing node, the step limit, END skipped, a branch that
+			// selects nothing) is recognised above; any other error means the engine could not carry a run
+			// through that the case gives it no reason to abandon (e.g. a stream left inside a checkpoint)
+			res.Oracle = "the run failed with an error that no planned abort exit of the case explains: " + out.msg
+			res.Sig = "unexpected-error"
+		}
 		e.releaseAll()
 		return res
 	}
@@ -594,6 +601,9 @@ func coqSched(e *env, sched [][]string, nodes []NodeSpec, startBranches []Branch
 // (the batches of completed tasks with the outcome of their branch conditions), the runs of the nested
 // graphs (each with its own graph and schedule) and the hook observables (totals over all runs).
 func coqCase(c *Case, e *env, sum *hookSummary) (string, bool) {
+	if extraInterrupts(c) {
+		return "", false // InterruptAndRerun / nested-graph interrupts are not in the model: oracle only
+	}
 	e.mu.Lock()
 	defer e.mu.Unlock()
 	writeTo, controls := c.callsOf()
@@ -783,6 +793,9 @@ func tagsOf(c *Case, e *env, o *Obs) []string {
 	}
 	if c.SameHandler {
 		t = append(t, "opt:same-handler")
+	}
+	if extraInterrupts(c) {
+		t = append(t, "opt:rerun-or-nested-interrupt")
 	}
 	if len(c.HandlerNodes) > 0 {
 		t = append(t, "opt:designated-handler")
